@@ -570,4 +570,124 @@ theorem scanAll_width {σ : Type} (o : σ → List Cell → Nat × Bool × σ) (
         · exact ih _ _ _ hls l hl
       · cases h
 
+/-! ### Structure of one `Scan`: which segments make up a line -/
+
+/-- `Taken o st rest st1 rest1`: starting at `(st, rest)` the scanner took whole segments, none of
+which carried the must-break flag, and now stands at `(st1, rest1)`. -/
+inductive Taken {σ : Type} (o : σ → List Cell → Nat × Bool × σ) : σ → List Cell → σ → List Cell → Prop where
+  | refl (st : σ) (rest : List Cell) : Taken o st rest st rest
+  | step {st : σ} {rest : List Cell} {st1 : σ} {rest1 : List Cell} :
+      Taken o st rest st1 rest1 → (o st1 rest1).2.1 = false →
+      Taken o st rest (o st1 rest1).2.2 (rest1.drop (o st1 rest1).1)
+
+/-- How a `Scan` that returned `(rest', st')` ended, relative to the position `(st1, rest1)` reached
+by taking whole non-breaking segments. -/
+inductive Ending {σ : Type} (o : σ → List Cell → Nat × Bool × σ) (width : Nat)
+    (st1 : σ) (rest1 : List Cell) (st' : σ) (rest' : List Cell) : Prop where
+  /-- the next segment was left for the next line (its word does not fit behind the token) -/
+  | left : rest' = rest1 → st' = st1 → sumW (trimRight (rest1.take (o st1 rest1).1)) ≤ width → Ending o width st1 rest1 st' rest'
+  /-- the next segment was taken whole and ends the line (must-break, or its trailing space does not fit) -/
+  | last : rest' = rest1.drop (o st1 rest1).1 → st' = (o st1 rest1).2.2 →
+      sumW (trimRight (rest1.take (o st1 rest1).1)) ≤ width → Ending o width st1 rest1 st' rest'
+  /-- the next segment was divided: its word part is wider than the line -/
+  | split : width < sumW (trimRight (rest1.take (o st1 rest1).1)) → st' = st1 →
+      (∃ t r, t ++ r = trimRight (rest1.take (o st1 rest1).1) ∧
+        rest' = r ++ trailing (rest1.take (o st1 rest1).1) ++ rest1.drop (o st1 rest1).1) →
+      Ending o width st1 rest1 st' rest'
+
+theorem scanLoop_structure {σ : Type} (o : σ → List Cell → Nat × Bool × σ) (width : Nat)
+    (st0 : σ) (rest0 : List Cell) :
+    ∀ (fuel : Nat) (rest : List Cell) (st : σ) (token : List Cell) (w : Nat)
+      (rest' : List Cell) (st' : σ) (tok : List Cell),
+    Taken o st0 rest0 st rest →
+    scanLoop o width fuel rest st token w = .line rest' st' tok →
+    ∃ st1 rest1, Taken o st0 rest0 st1 rest1 ∧ Ending o width st1 rest1 st' rest' := by
+  intro fuel
+  induction fuel with
+  | zero => intro rest st token w rest' st' tok _ h; simp [scanLoop] at h
+  | succ n ih =>
+    intro rest st token w rest' st' tok htk h
+    unfold scanLoop at h
+    simp only [] at h
+    rw [drop_trim] at h
+    split at h
+    · rename_i hlong
+      simp only [Scan.line.injEq] at h
+      obtain ⟨h1, h2, _⟩ := h
+      refine ⟨st, rest, htk, Ending.split hlong h2.symm ⟨_, _, splitLong_append width _ _ _, h1.symm⟩⟩
+    · rename_i hnl
+      split at h
+      · simp only [Scan.line.injEq] at h
+        obtain ⟨h1, h2, _⟩ := h
+        exact ⟨st, rest, htk, Ending.left h1.symm h2.symm (by omega)⟩
+      · split at h
+        · simp only [Scan.line.injEq] at h
+          obtain ⟨h1, h2, _⟩ := h
+          exact ⟨st, rest, htk, Ending.last h1.symm h2.symm (by omega)⟩
+        · rename_i hbr
+          split at h
+          · simp only [Scan.line.injEq] at h
+            obtain ⟨h1, h2, _⟩ := h
+            exact ⟨st, rest, htk, Ending.last h1.symm h2.symm (by omega)⟩
+          · exact ih _ _ _ _ _ _ _ (Taken.step htk (by simpa using hbr)) h
+
+theorem scan_structure {σ : Type} (o : σ → List Cell → Nat × Bool × σ) (width : Nat)
+    (rest : List Cell) (st : σ) (rest' : List Cell) (st' : σ) (tok : List Cell)
+    (h : scan o width rest st = .line rest' st' tok) :
+    ∃ st1 rest1, Taken o st rest st1 rest1 ∧ Ending o width st1 rest1 st' rest' := by
+  unfold scan at h
+  split at h
+  · cases h
+  · exact scanLoop_structure o width st rest _ _ _ _ _ _ _ _ (Taken.refl st rest) h
+
+/-- richtext: a segment returned by `firstLineSegment` contains a line terminator only as its last
+cell, and then it carries the must-break flag. -/
+theorem firstLineSegment_term (lb : Nat → Nat → Bool) : ∀ (l : List Cell) (first : Bool),
+    (first = false → ∀ c, l.head? = some c → c.term = false) →
+    (∀ c ∈ (l.take (firstLineSegment lb first l).1).dropLast, c.term = false) ∧
+    (∀ c, (l.take (firstLineSegment lb first l).1).getLast? = some c → c.term = true →
+      (firstLineSegment lb first l).2 = true) := by
+  intro l
+  induction l with
+  | nil => intro first _; simp [firstLineSegment]
+  | cons c cs ih =>
+    intro first hfirst
+    cases cs with
+    | nil => simp [firstLineSegment]
+    | cons n rest =>
+      unfold firstLineSegment
+      split
+      · simp
+      · rename_i hft
+        split
+        · rename_i hn
+          -- segment [c, n]: c is not a terminator
+          have hc : c.term = false := by
+            cases first with
+            | true => simpa using hft
+            | false => exact hfirst rfl c rfl
+          simp [hc]
+        · rename_i hn
+          have hc : c.term = false := by
+            cases first with
+            | true => simpa using hft
+            | false => exact hfirst rfl c rfl
+          split
+          · simp [hc]
+          · have hrec := ih false (fun _ c' hc' => by
+              simp at hc'; subst hc'; simpa using hn)
+            have hpos : 1 ≤ (firstLineSegment lb false (n :: rest)).1 :=
+              (firstLineSegment_spec lb (n :: rest) false (by simp)).1
+            obtain ⟨k, hk⟩ : ∃ k, (firstLineSegment lb false (n :: rest)).1 = k + 1 := ⟨_, (Nat.sub_add_cancel hpos).symm⟩
+            simp only [hk, List.take_succ_cons] at hrec ⊢
+            constructor
+            · intro x hx
+              rw [List.dropLast_cons_of_ne_nil (by simp)] at hx
+              rcases List.mem_cons.mp hx with rfl | hx
+              · exact hc
+              · exact hrec.1 x hx
+            · intro x hx hterm
+              rw [List.getLast?_cons_cons] at hx
+              exact hrec.2 x hx hterm
+
 end VaxisModel.Lemmas.Wrap
